@@ -56,3 +56,51 @@ package hpack
 //@   loop 1 invariant forall pr pairNameValue :: mapHas(t.byNameValue, pr) ==> idLive(t, mapGet(t.byNameValue, pr)) && mapGet(t.byNameValue, pr) - t.evictCount - 1 >= k && t.ents[mapGet(t.byNameValue, pr) - t.evictCount - 1].Name == pr.name && t.ents[mapGet(t.byNameValue, pr) - t.evictCount - 1].Value == pr.value
 //@   loop 2 invariant len(t.ents) == len(old(t.ents)) && len(t.ents) - n <= k#2 && k#2 <= len(t.ents) && t.evictCount == old(t.evictCount) && n <= len(t.ents) && (forall j int :: 0 <= j && j < len(t.ents) - n ==> t.ents[j] == old(t.ents)[j + n])
 //@   loop 2 assigns t.ents
+
+//@ -- dynamic table: size ledger (RFC 7541 4.1: name + value + 32 per entry), exact integers
+//@ pure func entSize(f HeaderField) int = len(f.Name) + len(f.Value) + 32
+//@ pure func szTo(e seq[HeaderField], k int) int = ite(k <= 0, 0, szTo(e, k-1) + entSize(e[k-1]))
+//@ lemma [C18:ledger-nonneg] szNonNeg(e seq[HeaderField], k int) induction k from 0 = szTo(e, k) >= 0
+//@ lemma [C18:ledger-suffix] szShift(e seq[HeaderField], n int, m int) induction m from 0 = 0 <= n && 0 <= m && n + m <= len(e) ==> szTo(e[n:], m) == szTo(e, n + m) - szTo(e, n)
+//@ lemma [C18:ledger-append] szApp(e seq[HeaderField], f HeaderField, k int) induction k from 0 = k <= len(e) ==> szTo(e ++ seq[HeaderField]{f}, k) == szTo(e, k)
+//@ lemma [C18:ledger-monotone] szMono(e seq[HeaderField], a int, b int) induction b from 0 = a <= b ==> szTo(e, a) <= szTo(e, b)
+//@ pure func dtInv(dt *dynamicTable) bool = tabInv(dt.table) && dt.size == szTo(dt.table.ents, len(dt.table.ents)) && (forall k int :: 0 <= k && k < len(dt.table.ents) ==> entSize(dt.table.ents[k]) <= 4294967295)
+
+//@ func HeaderField.Size :: hf -> r
+//@   props C18
+//@   assigns nothing
+//@   ensures entSize(hf) <= 4294967295 ==> r == entSize(hf)
+
+//@ func (*dynamicTable).evict :: dt
+//@   props C18,C10
+//@   requires dt != nil && dtInv(dt)
+//@   assigns dt.size, dt.table.ents, dt.table.evictCount, mapOf(dt.table.byName), mapOf(dt.table.byNameValue)
+//@   ensures [C18:table-within-permitted-size] dt.size <= dt.maxSize
+//@   ensures [C18:size-is-sum-of-entries] dtInv(dt)
+//@   ensures [C18:only-oldest-evicted] len(dt.table.ents) <= len(old(dt.table.ents)) && dt.table.ents == old(dt.table.ents)[len(old(dt.table.ents)) - len(dt.table.ents):]
+//@   ensures [C18:nothing-evicted-when-within-limit] old(dt.size) <= dt.maxSize ==> dt.table.ents == old(dt.table.ents) && dt.size == old(dt.size)
+//@   ensures [C18:evicts-no-more-than-needed] len(dt.table.ents) < len(old(dt.table.ents)) ==> old(dt.size) - szTo(old(dt.table.ents), len(old(dt.table.ents)) - len(dt.table.ents) - 1) > dt.maxSize
+//@   use szShift(old(dt.table.ents), len(old(dt.table.ents)) - len(dt.table.ents), len(dt.table.ents))
+//@   loop 1 use szMono(dt.table.ents, n + 1, len(dt.table.ents))
+//@   loop 1 invariant 0 <= n && n <= len(dt.table.ents) && dt.table.ents == old(dt.table.ents) && dt.table.evictCount == old(dt.table.evictCount) && tabInv(dt.table) && (forall k int :: 0 <= k && k < len(dt.table.ents) ==> entSize(dt.table.ents[k]) <= 4294967295) && dt.size == szTo(dt.table.ents, len(dt.table.ents)) - szTo(dt.table.ents, n) && (old(dt.size) <= dt.maxSize ==> n == 0) && (n > 0 ==> old(dt.size) - szTo(dt.table.ents, n - 1) > dt.maxSize)
+
+//@ func (*dynamicTable).setMaxSize :: dt, v
+//@   props C18
+//@   requires dt != nil && dtInv(dt)
+//@   assigns dt.maxSize, dt.size, dt.table.ents, dt.table.evictCount, mapOf(dt.table.byName), mapOf(dt.table.byNameValue)
+//@   ensures [C18:limit-takes-effect-at-once] dt.maxSize == v && dt.size <= v && dtInv(dt)
+//@   ensures [C18:only-oldest-evicted] len(dt.table.ents) <= len(old(dt.table.ents)) && dt.table.ents == old(dt.table.ents)[len(old(dt.table.ents)) - len(dt.table.ents):]
+//@   ensures [C18:nothing-evicted-when-within-limit] old(dt.size) <= v ==> dt.table.ents == old(dt.table.ents)
+
+//@ func (*dynamicTable).add :: dt, f
+//@   props C18,C10
+//@   requires dt != nil && dtInv(dt)
+//@   requires [C18:id-space-not-exhausted] idRoom(dt.table)
+//@   requires [C18:sizes-fit-32-bits] dt.size + entSize(f) <= 4294967295
+//@   assigns dt.size, dt.table.ents, dt.table.evictCount, mapOf(dt.table.byName), mapOf(dt.table.byNameValue)
+//@   cut c1 after addEntry#1 use szApp(old(dt.table.ents), f, len(old(dt.table.ents)))
+//@   ensures [C18:table-within-permitted-size] dt.size <= dt.maxSize && dtInv(dt)
+//@   ensures [C18:new-entry-newest-older-ones-evicted-first] len(dt.table.ents) <= len(old(dt.table.ents)) + 1 && dt.table.ents == (old(dt.table.ents) ++ seq[HeaderField]{f})[len(old(dt.table.ents)) + 1 - len(dt.table.ents):]
+//@   ensures [C18:entry-larger-than-table-empties-it] entSize(f) > dt.maxSize ==> len(dt.table.ents) == 0
+//@   ensures [C18:entry-that-fits-is-kept] entSize(f) <= dt.maxSize ==> len(dt.table.ents) >= 1 && dt.table.ents[len(dt.table.ents)-1] == f
+//@   use szNonNeg(dt.table.ents, len(dt.table.ents) - 1)
